@@ -481,8 +481,20 @@ fn process_undelegations(
     state: &mut State,
 ) -> StdResult<Vec<CosmosMsg>> {
     // Apply the current exchange rate.
-    let stsei_undelegation_amount = current_batch.requested_stsei * state.stsei_exchange_rate;
-    let bsei_undelegation_amount = current_batch.requested_bsei_with_fee * state.bsei_exchange_rate;
+    // A pool that has been slashed to zero backs nothing: its exchange rate is then only the
+    // placeholder value 1 and must not price the requests (the batch could never be undelegated).
+    let stsei_rate = if state.total_bond_stsei_amount.is_zero() {
+        Decimal::zero()
+    } else {
+        state.stsei_exchange_rate
+    };
+    let bsei_rate = if state.total_bond_bsei_amount.is_zero() {
+        Decimal::zero()
+    } else {
+        state.bsei_exchange_rate
+    };
+    let stsei_undelegation_amount = current_batch.requested_stsei * stsei_rate;
+    let bsei_undelegation_amount = current_batch.requested_bsei_with_fee * bsei_rate;
     let delegator = env.contract.address;
 
     // Send undelegated requests to possibly more than one validators
@@ -504,12 +516,12 @@ fn process_undelegations(
         batch_id: current_batch.id,
         time: env.block.time.seconds(),
         stsei_amount: current_batch.requested_stsei,
-        stsei_applied_exchange_rate: state.stsei_exchange_rate,
-        stsei_withdraw_rate: state.stsei_exchange_rate,
+        stsei_applied_exchange_rate: stsei_rate,
+        stsei_withdraw_rate: stsei_rate,
 
         bsei_amount: current_batch.requested_bsei_with_fee,
-        bsei_applied_exchange_rate: state.bsei_exchange_rate,
-        bsei_withdraw_rate: state.bsei_exchange_rate,
+        bsei_applied_exchange_rate: bsei_rate,
+        bsei_withdraw_rate: bsei_rate,
 
         released: false,
     };
